@@ -203,7 +203,10 @@ func genLigMetrics(t *rapid.T) *afm.Metrics {
 	}
 	n := rapid.IntRange(2, 40).Draw(t, "nglyphs")
 	for i := 0; i < n; i++ {
-		name := fmt.Sprintf("g%d", rapid.IntRange(0, 99).Draw(t, "gname"))
+		// names that tie under weaker orderings than "by name": differing in
+		// case only (g5/G5), in leading zeros (g5/g05), or equal when compared
+		// as numbers
+		name := fmt.Sprintf([]string{"g%d", "G%d", "g0%d", "g%d", "g%d", "g%d"}[rapid.IntRange(0, 5).Draw(t, "gform")], rapid.IntRange(0, 99).Draw(t, "gname"))
 		g := &afm.GlyphInfo{WidthX: float64(100 + i), BBox: rect.Rect{URx: float64(i + 1), URy: 5}}
 		nl := rapid.IntRange(0, 6).Draw(t, "nlig")
 		for k := 0; k < nl; k++ {
@@ -223,6 +226,37 @@ func genLigMetrics(t *rapid.T) *afm.Metrics {
 		m.Kern = append(m.Kern, &afm.KernPair{Left: fmt.Sprintf("g%d", i), Right: fmt.Sprintf("g%d", i+1), Adjust: funit.Int16(-i)})
 	}
 	return m
+}
+
+// addCaseTwins adds, for up to three glyphs, an unencoded glyph whose name
+// differs from an existing one in letter case only (ties for any ordering
+// that folds case).
+func addCaseTwins(t *rapid.T, f *type1.Font) {
+	var names []string
+	for n := range f.Glyphs {
+		names = append(names, n)
+	}
+	sort.Strings(names)
+	for i := rapid.IntRange(0, 3).Draw(t, "twins"); i > 0 && len(names) > 0; i-- {
+		n := names[rapid.IntRange(0, len(names)-1).Draw(t, "twinof")]
+		twin := strings.ToUpper(n)
+		if twin == n {
+			twin = strings.ToLower(n)
+		}
+		if twin == n || twin == ".NOTDEF" || twin == "NP" {
+			continue
+		}
+		shadow := false
+		for _, sn := range t1gen.ShadowNames {
+			shadow = shadow || sn == twin
+		}
+		if shadow {
+			continue // the class of the open finding C09-operator-glyph-names
+		}
+		if _, ok := f.Glyphs[twin]; !ok {
+			f.Glyphs[twin] = f.Glyphs[n]
+		}
+	}
 }
 
 func genCMapFile(t *rapid.T) []byte {
@@ -247,12 +281,13 @@ func genCMapFile(t *rapid.T) []byte {
 func TestP1Repeat(t *testing.T) {
 	rec := ev.New("C17", "repeat")
 	defer rec.Finish(t)
-	rec.Rule(fmt.Sprintf("values built to expose iteration order - fonts with up to 60 glyphs from the C09 generator, metrics with 2-40 glyphs and 0-6 ligatures per glyph plus kerning, CMap files with 2-5 CMaps whose names are adjacent or equal and blocks with duplicate source codes (ties in the sort). History: each writer (4 Type 1 formats, WritePDF with its two lengths, Metrics.Write, both GlyphList methods) is invoked %d times on the same value and every output must be byte-identical to the first; each reader (type1.Read on all four formats, afm.Read, ReadCMap) is invoked repeatedly on the same bytes and must give deep-equal results (for CMaps: same CMap chosen, same tables in the same order). Non-trivial: the value has >= 1 map with >= 2 entries on an output path (>= 2 glyphs, >= 2 ligatures on a glyph, >= 2 CMaps); distinct by value. Go randomises map iteration per range statement: %d repeats of a two-entry map miss an order dependence with probability 2^-%d.", repeats, repeats, repeats-1))
+	rec.Rule(fmt.Sprintf("values built to expose iteration order - fonts with up to 60 glyphs from the C09 generator plus glyphs whose names differ from another's in letter case only, metrics with 2-40 glyphs (names differing in case or leading zeros only) and 0-6 ligatures per glyph plus kerning, CMap files with 2-5 CMaps whose names are adjacent or equal and blocks with duplicate source codes (ties in the sort). History: each writer (4 Type 1 formats, WritePDF with its two lengths, Metrics.Write, both GlyphList methods) is invoked %d times on the same value and every output must be byte-identical to the first; each reader (type1.Read on all four formats, afm.Read, ReadCMap) is invoked repeatedly on the same bytes and must give deep-equal results (for CMaps: same CMap chosen, same tables in the same order). Non-trivial: the value has >= 1 map with >= 2 entries on an output path (>= 2 glyphs, >= 2 ligatures on a glyph, >= 2 CMaps); distinct by value. Go randomises map iteration per range statement: %d repeats of a two-entry map miss an order dependence with probability 2^-%d.", repeats, repeats, repeats-1))
 	ev.SetupRapid(3000, 96000)
 	rapid.Check(t, func(t *rapid.T) {
 		switch rapid.IntRange(0, 2).Draw(t, "kind") {
 		case 0:
 			f, _ := t1gen.GenFont(t, t1gen.FontOpts{NoOperatorNames: true, MaxGlyphs: 60})
+			addCaseTwins(t, f)
 			c := &fontCase{Font: f}
 			rec.Eval(1)
 			rec.Class("font")
